@@ -32,6 +32,8 @@ structure LSig where
   cells : List LCell := []
   active : Nat := 0           -- emissions of this list in progress
   dirty : Bool := false       -- only with `known.k1`: an entry left the list while an emission ran
+  limbo : List SlotB := []    -- slots disconnected while an emission of the list ran: the statements let the
+                              -- library keep their functor copies until no emission is in progress
 deriving Repr, Inhabited
 
 structure LSt where
@@ -41,6 +43,8 @@ structure LSt where
   C : List (Nat × Option Nat) := []
   K : List (Nat × Option Nat) := []
   sigs : List (Nat × LSig) := []
+  ownedT : List Nat := []
+  ownedK : List (Nat × Option Nat) := []
   next : Nat := 1
   depth : Nat := 0
   steps : Nat := 0
@@ -78,12 +82,16 @@ def getCell (s : LSt) (cid : Nat) : Option (Nat × LCell) :=
 
 /-- with `k2`, an entry that leaves the list while an emission of it runs stays as a never-invoked
     position until the outermost emission has returned -/
-def LSig.remove (g : LSig) (k1 k2 : Bool) (p : LCell → Bool) : LSig :=
+def LSig.remove (g : LSig) (k1 k2 : Bool) (dropFn : Bool) (p : LCell → Bool) : LSig :=
   let hit := g.cells.any (fun c => p c && !c.zombie && !c.marker)
+  let gone (c : LCell) : SlotB := if dropFn then c.slot.invalidate else c.slot.disconnectRep
   { g with
     cells := if k2 && g.active > 0 then
-               g.cells.map (fun c => if p c && !c.marker then { c with zombie := true, slot := c.slot.invalidate } else c)
+               g.cells.map (fun c => if p c && !c.marker && !c.zombie then { c with zombie := true, slot := gone c } else c)
              else g.cells.filter (fun c => !(p c) || c.marker),
+    limbo := if !k2 && g.active > 0 && !dropFn then
+               g.limbo ++ ((g.cells.filter (fun c => p c && !c.marker)).map (·.slot))
+             else g.limbo,
     dirty := g.dirty || (k1 && g.active > 0 && hit) }
 
 /-- the entry leaves its list -/
@@ -93,7 +101,7 @@ def removeCell (s : LSt) (cid : Nat) : LSt :=
   | some i =>
     match aget s.sigs i with
     | none => s
-    | some g => setSig s i (g.remove s.k1 s.k2 (·.id = cid))
+    | some g => setSig s i (g.remove s.k1 s.k2 false (·.id = cid))
 
 def updCell (s : LSt) (cid : Nat) (f : LCell → LCell) : LSt :=
   match findSig s.sigs cid with
@@ -113,7 +121,7 @@ def gcSig (s : LSt) (i : Nat) : LSt :=
 /-- a trackable object dies (or notifies): every slot referring to it becomes empty and leaves its signal -/
 def invalidateTrackable (s : LSt) (t : Nat) : LSt :=
   let s := { s with S := amap s.S (fun v => if v.slot.tracksObj t then { v with slot := v.slot.invalidate } else v) }
-  { s with sigs := amap s.sigs (fun g => g.remove s.k1 s.k2 (fun c => c.slot.tracksObj t)) }
+  { s with sigs := amap s.sigs (fun g => g.remove s.k1 s.k2 true (fun c => c.slot.tracksObj t)) }
 
 def ensureSig (s : LSt) (g : Nat) : Option (LSt × Nat) :=
   match aget s.G g with
@@ -176,6 +184,16 @@ def mkFun (s : LSt) (isVoid : Bool) : FSpec → Except String (Fun × LSt)
       else
         let s := { s with G := aset s.G g { h with everFwd := true } }
         .ok (.fwd h.obj (if h.fl.isTrackable then [h.trk] else []), s)
+  | .ownT fid t =>
+    match aget s.T t with
+    | none => .error "dead"
+    | some o => .ok (.owner fid [o] [], { s with T := adel s.T t, ownedT := o :: s.ownedT })
+  | .ownK fid k =>
+    match aget s.K k with
+    | none => .error "dead"
+    | some p =>
+      let (id, s) := s.fresh
+      .ok (.owner fid [] [id], { s with K := adel s.K k, ownedK := (id, p) :: s.ownedK })
   | .bad => .error "badtype"
 
 /-- connected(): the slot it was obtained for is still held by its signal and valid -/
@@ -194,6 +212,37 @@ def connBlockedStr (s : LSt) (p : Option Nat) : String :=
     match getCell s cid with
     | none => "*"          -- the slot is gone: blocked() is left open by the statements
     | some (_, c) => bstr c.slot.blocked
+
+def heldT (s : LSt) (o : Nat) : Bool :=
+  s.S.any (fun p => p.2.slot.holdsT o)
+  || s.sigs.any (fun p => p.2.cells.any (fun c => c.slot.holdsT o) || p.2.limbo.any (fun sl => sl.holdsT o))
+
+def heldK (s : LSt) (k : Nat) : Bool :=
+  s.S.any (fun p => p.2.slot.holdsK k)
+  || s.sigs.any (fun p => p.2.cells.any (fun c => c.slot.holdsK k) || p.2.limbo.any (fun sl => sl.holdsK k))
+
+/-- an object owned by functors dies with the last functor copy holding it: a trackable invalidates
+    the slots referring to it, a scoped_connection disconnects its slot -/
+def collectStep (s : LSt) : Option LSt :=
+  match s.ownedT.find? (fun o => !heldT s o) with
+  | some o => some (invalidateTrackable { s with ownedT := s.ownedT.filter (· ≠ o) } o)
+  | none =>
+    match s.ownedK.find? (fun p => !heldK s p.1) with
+    | some (k, p) =>
+      let s := { s with ownedK := s.ownedK.filter (fun q => q.1 ≠ k) }
+      some (match p with
+        | some cid => removeCell s cid
+        | none => s)
+    | none => none
+
+def collectN : Nat → LSt → LSt
+  | 0, s => s
+  | n+1, s =>
+    match collectStep s with
+    | some s' => collectN n s'
+    | none => s
+
+def collect (s : LSt) : LSt := collectN (s.ownedT.length + s.ownedK.length) s
 
 def liveCount (s : LSt) (fid : Nat) : Nat :=
   (s.S.map (fun p => p.2.slot.live fid)).sum
@@ -473,7 +522,7 @@ def stepSimple (s : LSt) (op : Op) : Option (LSt × String) :=
       | some im =>
         match aget s.sigs im with
         | none => ok s "ok"
-        | some x => ok (setSig s im (x.remove s.k1 s.k2 (fun _ => true))) "ok"
+        | some x => ok (setSig s im (x.remove s.k1 s.k2 false (fun _ => true))) "ok"
   | .sizeq g =>
     match aget s.G g with
     | none => ok s "dead"
@@ -623,7 +672,7 @@ def invokeFun : Nat → Prog → LSt → Fun → Nat → Option (LSt × Outcome 
   | 0, _, _, _, _ => none
   | f+1, P, s, fn, arg =>
     match fn with
-    | .leaf fid _ =>
+    | .leaf fid _ | .owner fid _ _ =>
       let s := s.log (.call s.depth fid arg)
       match aget P.bodies fid with
       | none => some (s, .ok, resultOf fid arg)
@@ -655,8 +704,8 @@ def execLine : Nat → Prog → LSt → Line → Option (LSt × Outcome)
     let s := { s with steps := s.steps + 1 }
     match execOp f P s l.op with
     | none => none
-    | some (s, .error _) => some (s.log (.res s.depth l.text "exc"), .exc)
-    | some (s, .ok r) => some (s.log (.res s.depth l.text r), .ok)
+    | some (s, .error _) => some (collect (s.log (.res s.depth l.text "exc")), .exc)
+    | some (s, .ok r) => some (collect (s.log (.res s.depth l.text r)), .ok)
 
 /-- one emission: snapshot, turns in order, result -/
 def emitSig : Nat → Prog → LSt → Flavour → Option Nat → Nat → Strat → Option (LSt × Outcome × Nat)
@@ -682,11 +731,11 @@ def emitSig : Nat → Prog → LSt → Flavour → Option Nat → Nat → Strat 
           | none => some (s.fail "emit: list died during its emission", o, v)
           | some g2 =>
             let g3 := { g2 with active := g2.active - 1, cells := g2.cells.filter (·.id ≠ m) }
-            let g3 := if g3.active = 0 then { g3 with cells := g3.cells.filter (fun c => !c.zombie) } else g3
+            let g3 := if g3.active = 0 then { g3 with cells := g3.cells.filter (fun c => !c.zombie), limbo := [] } else g3
             let g3 := if g3.active = 0 && g3.dirty then
                         { g3 with dirty := false, cells := g3.cells.filter (fun c => !c.slot.empty) }
                       else g3
-            some (gcSig (setSig s i g3) i, o, v)
+            some (collect (gcSig (setSig s i g3) i), o, v)
 
 /-- the turns of a non-accumulated emission over the snapshot; `r` = result of the last invoked slot -/
 def turns : Nat → Prog → LSt → Nat → List Nat → Nat → Nat → Option (LSt × Outcome × Nat)
